@@ -2078,6 +2078,13 @@ int parse_instruction_arm64(AsmContext *asm_context, char *instr)
               token_type = tokens_get(asm_context, token, TOKENLEN);
               num = atoi(token);
 
+              // offset_shift is a uint8_t: lsl #256 used to become lsl #0.
+              if (token_type != TOKEN_NUMBER || num < 0 || num > 4)
+              {
+                print_error_range(asm_context, "Shift", 0, 4);
+                return -1;
+              }
+
               operands[operand_count].offset_shift = num;
               operands[operand_count].option = OPTION_LSL;
             }
